@@ -19,6 +19,7 @@ LEVEL_TEXT = ("Control- and data-flow rules on the MIR of the CLI's main() (buil
 LEVEL_NOTE = ("Not decided: byte equality of stdout with the library's output, clap's option parsing, exit codes as observed from a process; "
               "the language loader and grammar compilation are outside the property.")
 LEVEL_TEXT += (' The texts given to File::from_str, Parser::parse and execute are String::from_utf8(fs::read(path)) looked at through error-handling wrappers only (no trimming, BOM or newline normalisation).')
+LEVEL_TEXT += (' The variable set handed to the library is only ever added to in main.')
 
 
 def flag_of(e):
@@ -222,6 +223,9 @@ def run(prog, rep):
         rep.check(ok, "C19.R5", "main :: %s is the file as read" % what, "", "String::from_utf8(fs::read(%s)) handed on untouched" % core[:60],
                   "the %s given to the library is not the decoded file content itself: %s" % (what, core))
     rep.floor("C19.R5", len(texts), 3, "texts handed to the library")
+    # the set of globals handed to the library is exactly what --global supplied: built with new(), filled with add(), nothing taken out
+    gm = sorted({callee_fn(t)["def"].rsplit("::", 1)[-1] for b, t in body.calls() if is_callee(t, r"tsg::variables::Globals::<'a>::\w+$|variables::Globals::\w+$")})
+    rep.check(set(gm) <= {"new", "add"} and "add" in gm, "C19.R5", "main :: globals only added", "", "Variables::new() + add() per --global", "main also calls %s on the variable set it hands to the library: a supplied --global can be changed or withheld" % [x for x in gm if x not in ("new", "add")])
     dja = canon_full(tr.operand(dj[0][1]["args"][1]))
     rep.check(re.match(r'^Option::map\(ArgMatches::value_of\(.*, "output"\), main::\{closure#\d+\}\{\}\)$', dja) is not None, "C19.R5", "main :: --output", "", "display_json(value_of(\"output\").map(Path::new))", "display_json's path argument is %s" % dja[:100])
     outc = [b for b, t in calls(r"clap::ArgMatches::value_of$") if canon(strip(tr.operand(t["args"][1]))) == '"output"']
